@@ -356,6 +356,15 @@ func runCheck(root string, args []string) int {
 			vioLines = append(vioLines, line)
 		}
 	}
+	// thorough tier: bounded stand-in for the numeric rebalance target and the net-supply closed form (C10, C11)
+	if rebFacts := map[string][]string{
+		"C10": {"bonded_validators_at_target", "unbonded_validators_not_adjusted", "end_of_block_succeeds"},
+		"C11": {"module_holds_no_staking_denom", "net_supply_unchanged", "no_user_receives_staking_denom"},
+	}[prop]; rebFacts != nil && tier == "thorough" {
+		runBoundedSuite(root, vd, prop, seed, "rebalance", "bounded/zz_bounded_rebalance_test.go", "TestBoundedRebalance", rebFacts,
+			"10 seeded random histories x 14 blocks, 3 bonded validators with native stake, 3 users, two assets (one starts 5 minutes later), alliance and native (un)delegations, weight changes, jail/unjail; each block ends with the staking validator-set update and the real EndBlocker",
+			isKnown, &knownHit, &bounded, &violations, &vioLines)
+	}
 	// thorough tier: bounded stand-in for the export/import composition (C18)
 	if prop == "C18" && tier == "thorough" {
 		runBoundedSuite(root, vd, prop, seed, "genesis", "bounded/zz_bounded_genesis_test.go", "TestBoundedGenesisRoundTrip",
